@@ -50,6 +50,7 @@ func main() {
 		demoScanShort()
 	case "rpc":
 		runRPC(seed, tier)
+		runRPCSender(seed, tier)
 	case "pd":
 		runPD(seed, tier)
 	case "e2e":
